@@ -39,24 +39,26 @@ def path_history(rng, hid, length):
         dirfd = dirfd_d if use_d else 3
         names = ["c", "e", "n"] if use_d else ["a", "b", "d", "d/c", "d/e", "l", "n", "d/n", "x/n", ""]
         name = rng.choice(names)
+        # a trailing slash asks for a directory: the host decides, the resolved path must keep it
+        raw = name + "/" if name and rng.random() < 0.15 else name
         full = ("d/" + name) if use_d else name
         parent = os.path.dirname(name)
         k = rng.choice(["mkdir", "rmdir", "unlink", "symlink", "readlink", "pathstat", "rename", "mkdir", "unlink", "open"])
-        c = {"call": k, "abi": abi, "dirfd": dirfd, "path": name, "parent": parent, "under": below(full)}
+        c = {"call": k, "abi": abi, "dirfd": dirfd, "path": name, "rawpath": raw, "parent": parent, "under": below(full)}
         if k == "symlink":
             c["target"] = rng.choice(["a", "tgt", "d/c", "x" * 40])
         elif k == "readlink":
             c["buflen"] = rng.choice([0, 1, 2, 3, 64])
         elif k == "rename":
             n2 = rng.choice(["a", "b", "n", "d/n", "d/c", "x/n"])
-            c.update({"fd": 3, "path2": n2, "parent2": os.path.dirname(n2)})
+            c.update({"fd": 3, "path2": n2, "parent2": os.path.dirname(n2), "rawpath2": n2 + "/" if rng.random() < 0.1 else n2})
         elif k == "open":
             if dirfd_d is None and rng.random() < 0.5:
                 c = {"call": "open", "abi": abi, "dirfd": 3, "path": "d", "abs": False, "oflags": 2, "rd": True, "wr": False, "app": False}
                 dirfd_d = nextfd
             else:
-                c = {"call": "open", "abi": abi, "dirfd": dirfd, "path": name or "a", "abs": False, "oflags": rng.choice([0, 1]), "rd": True, "wr": True, "app": False,
-                     "parent": os.path.dirname(name or "a")}
+                c = {"call": "open", "abi": abi, "dirfd": dirfd, "path": name or "a", "rawpath": raw or "a", "abs": False, "oflags": rng.choice([0, 1]), "rd": True, "wr": True,
+                     "app": False, "parent": os.path.dirname(name or "a")}
             nextfd += 1
         calls.append(c)
     return {"id": "p%d" % hid, "setup": setup, "calls": calls}
@@ -79,6 +81,9 @@ def readdir_scenarios(rng, tier, exe, wd):
                 setup.append({"call": "mkdirs", "path": "dd/" + nm})
             elif k % 4 == 2:
                 setup.append({"call": "mklink", "path": "dd/" + nm, "target": "t"})
+            elif k % 4 == 3 or (k % 4 == 0 and k >= 4 and j % 3 == 0):
+                # entries whose type the directory stream cannot tell: the implementation asks lstat, name by name
+                setup.append({"call": "mkfifo", "path": "dd/" + nm})
             else:
                 setup.append({"call": "mkfile", "path": "dd/" + nm, "bytes": [1] * k})
         return names, setup
@@ -177,7 +182,7 @@ def main():
                 continue
             by_i = {r["i"]: r for r in recs if "i" in r}
             ls = by_i.get(2)
-            lst = [{"name": list(os.path.basename(e["name"]).encode()), "ino": e["ino"] % (2 ** 31), "type": {"file": 4, "dir": 3, "link": 7}[e["type"]]}
+            lst = [{"name": list(os.path.basename(e["name"]).encode()), "ino": e["ino"] % (2 ** 31), "type": {"file": 4, "dir": 3, "link": 7, "other": 0}[e["type"]]}
                    for e in (ls or {}).get("entries", []) if e["name"].startswith("dd/") and e["name"].count("/") == 1]
             line = 3
             stream = None
